@@ -145,6 +145,59 @@ type Quantity struct {
 	StartSym func(p *ir.Path) *ir.Term
 	// ValueAt: the term of the quantity just before step i of p (i == len(p.Steps): at the end)
 	ValueAt func(p *ir.Path, i int) *ir.Term
+	// Atom (optional): a branch condition of p restated on the quantity (for derived quantities)
+	Atom func(p *ir.Path, atom *ir.Term) *ir.Term
+}
+
+// RemainingQuantity: the budget n - counter, for a counter that counts up from 0 towards the bound n (the other
+// representation of a budget that is counted down from n). Its start symbol is one synthetic term B; its value is
+// B minus what the counter gained on the path; comparisons of the counter with n are restated on B:
+// counter+k == n is B-k == 0, counter+k < n is 0 < B-k, n < counter+k is B-k < 0; before the loop (counter still 0)
+// n itself is B.
+func RemainingQuantity(counter Quantity, n *ir.Term) Quantity {
+	b := &ir.Term{Op: "sym", Aux: "remaining(" + n.Key() + ")"}
+	gained := func(p *ir.Path, i int) (int64, bool) {
+		return plusConst(counter.ValueAt(p, i), counter.StartSym(p))
+	}
+	return Quantity{
+		StartSym: func(*ir.Path) *ir.Term { return b },
+		ValueAt: func(p *ir.Path, i int) *ir.Term {
+			d, ok := gained(p, i)
+			if !ok {
+				return &ir.Term{Op: "sym", Aux: "unknown"}
+			}
+			return ir.MkBin("+", ir.Const(fmt.Sprint(-d)), b)
+		},
+		Atom: func(p *ir.Path, atom *ir.Term) *ir.Term {
+			if atom.Op != "bin" || len(atom.Args) != 2 {
+				return atom
+			}
+			sym := counter.StartSym(p)
+			x, y := atom.Args[0], atom.Args[1]
+			minus := func(k int64) *ir.Term { return ir.MkBin("+", ir.Const(fmt.Sprint(-k)), b) }
+			zero := ir.Const("0")
+			if k, ok := plusConst(x, sym); ok && ir.Same(y, n) && sym != nil {
+				switch atom.Aux {
+				case "==":
+					return &ir.Term{Op: "bin", Aux: "==", Args: []*ir.Term{minus(k), zero}}
+				case "<": // counter+k < n
+					return &ir.Term{Op: "bin", Aux: "<", Args: []*ir.Term{zero, minus(k)}}
+				}
+			}
+			if k, ok := plusConst(y, sym); ok && ir.Same(x, n) && sym != nil {
+				switch atom.Aux {
+				case "==":
+					return &ir.Term{Op: "bin", Aux: "==", Args: []*ir.Term{minus(k), zero}}
+				case "<": // n < counter+k
+					return &ir.Term{Op: "bin", Aux: "<", Args: []*ir.Term{minus(k), zero}}
+				}
+			}
+			if p.From == nil && mentions(atom, n) {
+				return substTerm(atom, n, b)
+			}
+			return atom
+		},
+	}
 }
 
 // CellQuantity tracks the integer stored in the memory cell addr.
@@ -294,7 +347,11 @@ func runIntervals(an *ir.Analysis, init Itv, q Quantity, observe func(s *ir.Step
 					}
 				}
 				if st.Kind == ir.KBranch {
-					iv = refineItv(iv, st.Atom, st.Pol, match)
+					at := st.Atom
+					if q.Atom != nil {
+						at = q.Atom(p, at)
+					}
+					iv = refineItv(iv, at, st.Pol, match)
 					if iv.Empty() {
 						feasible = false
 						break
